@@ -30,7 +30,7 @@ def shards(tier, seed):
             for i in range(n_sh)] + [{"name": "threaded", "threads": 1, "timeout": 900,
                                       "params": {"kind": "threaded", "seed": seed, "nthreads": 4,
                                                  "per_thread": 40 if tier == "quick" else 400}}] \
-        + ([{"name": "repo-tests", "threads": 4, "timeout": 1800,
+        + ([{"name": "repo-tests", "threads": 4, "timeout": 2400,
                                        "params": {"kind": "repo-tests"}}] if tier == "thorough" else [])
 
 
